@@ -37,11 +37,11 @@ const oprec = 256 // mantissa bits of the oracle arithmetic
 type cx struct{ re, im *big.Float }
 type vec []cx
 
-func fnew() *big.Float               { return new(big.Float).SetPrec(oprec) }
-func fF(x float64) *big.Float        { return fnew().SetFloat64(x) }
-func fB(x *big.Float) *big.Float     { return fnew().Set(x) }
-func fU(x uint64) *big.Float         { return fnew().SetUint64(x) }
-func fI(x *big.Int) *big.Float       { return fnew().SetInt(x) }
+func fnew() *big.Float                { return new(big.Float).SetPrec(oprec) }
+func fF(x float64) *big.Float         { return fnew().SetFloat64(x) }
+func fB(x *big.Float) *big.Float      { return fnew().Set(x) }
+func fU(x uint64) *big.Float          { return fnew().SetUint64(x) }
+func fI(x *big.Int) *big.Float        { return fnew().SetInt(x) }
 func fmul(a, b *big.Float) *big.Float { return fnew().Mul(a, b) }
 func fquo(a, b *big.Float) *big.Float { return fnew().Quo(a, b) }
 func f64(x *big.Float) float64 {
@@ -151,6 +151,7 @@ type st struct {
 	eval   *ckks.Evaluator
 	rots   []int
 	hasCj  bool
+	ci1ok  bool // conjugate-invariant ring: a 1-slot plaintext encodes correctly in this tree
 
 	N, maxSlots, logMax int
 	F, T, Be            float64
@@ -272,6 +273,19 @@ func build(c *eng.Ctx, cfg pcfg) *st {
 		coeff := f64(fquo(fmul(sum, fF(float64(s.N)*s.Be)), P))
 		s.ks = append(s.ks, s.F*(coeff+float64(alpha+2)*(1+s.T)))
 	}
+	if cfg.CI {
+		pt := ckks.NewPlaintext(params, params.MaxLevel())
+		pt.LogDimensions = ring.Dimensions{Rows: 0, Cols: 0}
+		if p, _ := eng.Panics(func() {
+			if err := s.ecdDef.Encode([]float64{0.5}, pt); err == nil {
+				v := s.decodeFullPt(pt)
+				d, _ := maxDiff(v, s.replicate(vec{cxFF(0.5, 0)}))
+				s.ci1ok = d < 1e-3
+			}
+		}); p {
+			s.ci1ok = false
+		}
+	}
 	return s
 }
 
@@ -344,7 +358,7 @@ type expect struct {
 	logSlots int
 	B        float64
 	added    float64 // part of B that is the worst-case noise added by this very operation (evidence only)
-	pred     string // predicate naming the input class when it is one with a separately triaged behaviour
+	pred     string  // predicate naming the input class when it is one with a separately triaged behaviour
 	depth    int
 	uneq     bool
 }
